@@ -63,10 +63,49 @@ var leafVariants = map[string][]string{
 	"NA": {"FS_{TOK}\xc3\xa9", "FS_\xef\xbc\x91{TOK}", "FS_{TOK}\xff", "\xc2\xa0FS_{TOK}", "FS\xe2\x80\x8b_{TOK}"},
 }
 
-// borderline members (same endpoint, other spelling): creation is allowed, not required
-var softVariants = map[string][]string{
-	"La4": {"FS_::ffff:127.0.0.1_{PORT}_{TOK}"},
-	"La6": {"FS_0:0:0:0:0:0:0:1_{PORT}_{TOK}"},
+// Address SPELLING classes of FSAuth.tla (last component of paths of <= 2
+// components).  {IP} is the live peer address of the connection in use; a key
+// "class@fam" lists the members for that address family.
+var spellVariants = map[string][]string{
+	// another valid IPv6 text of the same address: may be accepted
+	"LaMap@4": {"FS_::ffff:{IP}_{PORT}_{TOK}", "FS_::FFFF:{IP}_{PORT}_{TOK}", "FS_0:0:0:0:0:ffff:{IP}_{PORT}_{TOK}",
+		"FS_::ffff:7f00:1_{PORT}_{TOK}", "FS_0000:0000:0000:0000:0000:FFFF:{IP}_{PORT}_{TOK}"},
+	"LaMap@6": {"FS_::ffff:127.0.0.1_{PORT}_{TOK}", "FS_::FFFF:127.0.0.1_{PORT}_{TOK}"}, // not this peer: refused
+	"LaAlt@6": {"FS_0:0:0:0:0:0:0:1_{PORT}_{TOK}", "FS_::0001_{PORT}_{TOK}", "FS_0::1_{PORT}_{TOK}",
+		"FS_0000:0000:0000:0000:0000:0000:0000:0001_{PORT}_{TOK}", "FS_0:0::0:1_{PORT}_{TOK}"},
+	"LaAlt@4": {"FS_0:0:0:0:0:0:0:1_{PORT}_{TOK}", "FS_::0001_{PORT}_{TOK}"}, // not this peer: refused
+	// a zone suffix is not part of the address grammar: refused, whatever follows the '%'
+	"LaZone@4": {
+		"FS_::ffff:{IP}%eth0_{PORT}_{TOK}", "FS_::ffff:{IP}%1_{PORT}_{TOK}", "FS_::FFFF:{IP}%Zone9_{PORT}_{TOK}",
+		"FS_::ffff:{IP}%.-%:;,=+@!~{TOK}x_{PORT}_{TOK}",
+		"FS_::ffff:{IP}%..-evil.{TOK}_{PORT}_{TOK}", "FS_::ffff:{IP}%\x01{TOK}_{PORT}_{TOK}", "FS_::ffff:{IP}%a\n\t\x7f_{PORT}_{TOK}",
+		"FS_::ffff:{IP}%\xc3\xa9{TOK}_{PORT}_{TOK}", "FS_::ffff:{IP}%\xff\xfe_{PORT}_{TOK}",
+		"FS_::ffff:{IP}%\x01\xc3\xa9.seed..evil{TOK}_{PORT}_{TOK}",
+		"FS_::ffff:{IP}%" + strings.Repeat("z", 150) + "_{PORT}_{TOK}", "FS_::ffff:{IP}% _{PORT}_{TOK}",
+		"FS_0:0:0:0:0:ffff:{IP}%eth0_{PORT}_{TOK}", "FS_::ffff:7f00:1%eth0_{PORT}_{TOK}",
+		"FS_{IP}%eth0_{PORT}_{TOK}", "FS_{IP}%1_{PORT}_{TOK}", "FS_::1%lo_{PORT}_{TOK}", "FS_::ffff:{IP}%_{PORT}_{TOK}",
+		"FS_::ffff:{IP}%25eth0_{PORT}_{TOK}", "FS_::ffff:{IP}%e%f_{PORT}_{TOK}",
+	},
+	"LaZone@6": {
+		"FS_{IP}%lo_{PORT}_{TOK}", "FS_{IP}%1_{PORT}_{TOK}", "FS_{IP}%\x01{TOK}_{PORT}_{TOK}", "FS_{IP}%\xc3\xa9_{PORT}_{TOK}",
+		"FS_{IP}%.-;{TOK}_{PORT}_{TOK}", "FS_0:0:0:0:0:0:0:1%lo_{PORT}_{TOK}", "FS_{IP}%" + strings.Repeat("z", 150) + "_{PORT}_{TOK}",
+		"FS_::ffff:127.0.0.1%eth0_{PORT}_{TOK}", "FS_::ffff:127.0.0.1%\x01_{PORT}_{TOK}", "FS_{IP}%_{PORT}_{TOK}",
+	},
+	// non-canonical numerals of the peer address: refused
+	"LaOdd@4": {"FS_127.000.000.001_{PORT}_{TOK}", "FS_0127.0.0.1_{PORT}_{TOK}", "FS_127.0.0.01_{PORT}_{TOK}", "FS_0x7f.0.0.1_{PORT}_{TOK}",
+		"FS_0x7f000001_{PORT}_{TOK}", "FS_0177.0.0.1_{PORT}_{TOK}", "FS_017700000001_{PORT}_{TOK}", "FS_2130706433_{PORT}_{TOK}",
+		"FS_127.1_{PORT}_{TOK}", "FS_127.0.1_{PORT}_{TOK}", "FS_[{IP}]_{PORT}_{TOK}", "FS_{IP}._{PORT}_{TOK}", "FS_ {IP}_{PORT}_{TOK}",
+		"FS_{IP} _{PORT}_{TOK}", "FS_{IP}:{PORT}_{PORT}_{TOK}", "FS_[::ffff:{IP}]_{PORT}_{TOK}", "FS_::ffff:127.000.000.001_{PORT}_{TOK}",
+		"FS_::ffff:{IP}._{PORT}_{TOK}", "FS_::ffff.{IP}_{PORT}_{TOK}", "FS_:ffff:{IP}_{PORT}_{TOK}", "FS_::ffff:0x7f.0.0.1_{PORT}_{TOK}"},
+	"LaOdd@6": {"FS_[{IP}]_{PORT}_{TOK}", "FS_ {IP}_{PORT}_{TOK}", "FS_{IP} _{PORT}_{TOK}", "FS_{IP}._{PORT}_{TOK}", "FS_:{IP}_{PORT}_{TOK}",
+		"FS_0:0:0:0:0:0:0:0:1_{PORT}_{TOK}", "FS_::00001_{PORT}_{TOK}", "FS_[{IP}]:{PORT}_{PORT}_{TOK}", "FS_::g_{PORT}_{TOK}", "FS_::1::_{PORT}_{TOK}"},
+}
+
+func variantsOf(class string, fam int) []string {
+	if v, ok := spellVariants[class+"@"+itoa(fam)]; ok {
+		return v
+	}
+	return leafVariants[class]
 }
 
 // NVariants is the number of concretisations of a scenario's classes (the
@@ -74,7 +113,7 @@ var softVariants = map[string][]string{
 func NVariants(s Scn) int {
 	n := 1
 	for _, c := range s.Path {
-		k := len(leafVariants[c]) + len(softVariants[c])
+		k := len(variantsOf(c, s.Fam))
 		if c == "O" {
 			k = 2
 		}
@@ -152,16 +191,8 @@ func (e *Env) Render(c Concrete, tok string) (path string, soft bool) {
 				str = lit // relative paths: the cwd holds other/ and lnk
 			}
 		default:
-			vs := leafVariants[cl]
-			sv := softVariants[cl]
-			k := (c.Variant + i) % (len(vs) + len(sv))
-			if k < len(vs) {
-				str = vs[k]
-			} else {
-				str = sv[k-len(vs)]
-				soft = true
-			}
-			str = e.subst(str, tok, s.Fam)
+			vs := variantsOf(cl, s.Fam)
+			str = e.subst(vs[(c.Variant+i)%len(vs)], tok, s.Fam)
 		}
 		parts = append(parts, str)
 		sofar += str + "/"
@@ -194,6 +225,16 @@ func (e *Env) Classify(p string, fam int) (abs bool, classes []string, soft bool
 		cl, sf := e.classifyComp(comp, fam)
 		classes = append(classes, cl)
 		soft = soft || sf
+	}
+	for i, cl := range classes {
+		switch cl {
+		case "LaMap", "LaAlt", "LaZone", "LaOdd":
+			// enumerated only as the last component of paths of at most two components;
+			// elsewhere the name is just a directory name (never a valid path)
+			if i != len(classes)-1 || len(classes) > 2 {
+				classes[i] = "NM"
+			}
+		}
 	}
 	return abs, classes, soft
 }
@@ -284,6 +325,12 @@ func (e *Env) classifyComp(c string, fam int) (string, bool) {
 		}
 		f := strings.Split(rest, "_")
 		if len(f) == 3 && !strings.HasPrefix(rest, "REMOTE_") {
+			if i := strings.IndexByte(f[0], '%'); i >= 0 && digits(f[1], 1, 5) && alnum(f[2], 1, 16) {
+				// <address>%<zone>: not an address of the documented grammar
+				if _, err := netip.ParseAddr(f[0][:i]); err == nil || strictV4(f[0][:i]) {
+					return "LaZone", false
+				}
+			}
 			addr, err := netip.ParseAddr(f[0])
 			isIP := err == nil && addr.Zone() == ""
 			looksIP := isIP || strictV4(f[0])
@@ -298,11 +345,17 @@ func (e *Env) classifyComp(c string, fam int) (string, bool) {
 				numPort := strings.TrimLeft(f[1], "0") == e.Port[fam]
 				switch {
 				case sameIP && samePort:
-					soft := addr != live || (strictV4(f[0]) != addr.Is4())
-					if fam == 4 {
-						return "La4", soft
+					canonical := f[0] == live.String()
+					switch {
+					case fam == 4 && canonical:
+						return "La4", false
+					case fam == 4:
+						return "LaMap", false // another valid text of the same address
+					case canonical:
+						return "La6", false
+					default:
+						return "LaAlt", false
 					}
-					return "La6", soft
 				case sameIP && numPort:
 					return "La4port", true // same port, other spelling: borderline
 				case sameIP:
